@@ -163,8 +163,19 @@ func c01Stress(r *ev.Result, rounds int) {
 		for k := 0; k < 2; k++ {
 			pws[k].Close()
 		}
-		<-done[0]
-		<-done[1]
+		for k := 0; k < 2 && "" == problem; k++ {
+			select {
+			case <-done[k]:
+			case <-time.After(hworld.Watchdog):
+				problem = fmt.Sprintf("attempt %v has not ended %v after its context was cancelled and its stream closed", pair[k], hworld.Watchdog)
+			}
+		}
+		if "" != problem && (!isDone(0) || !isDone(1)) {
+			r.Violate(ev.Violation{Signature: "free-running/attempt-never-ends", Kind: "c01stress", Replay: map[string]any{"pair": fmt.Sprintf("%v", pair), "round": round},
+				What: fmt.Sprintf("real broker, idle; the attempts %v released together (free-running, round %d): %s", pair, round, problem)})
+			n++
+			break
+		}
 		go func() {
 			for range och {
 			}
